@@ -196,6 +196,8 @@ impl Parser {
             parse_errors: parse_errors.clone(),
         }));
         let r = match prsr.start() {
+            // After a syntax error the tree contains error nodes the visitor cannot walk.
+            Ok(_) if !parse_errors.borrow().is_empty() => Ok(IdedExpr::default()),
             Ok(t) => Ok(self.visit(t.deref())),
             Err(e) => Err(ParseError {
                 source: Some(Box::new(e)),
@@ -370,8 +372,10 @@ impl<'a, T: Recognizer<'a>> ErrorListener<'a, T> for ParserErrorListener {
         _error: Option<&ANTLRError>,
     ) {
         match offending_symbol {
+            // Only the deletion of a stray whitespace token (no recognition error) is harmless.
             Some(offending_symbol)
-                if offending_symbol.get_token_type() == gen::cellexer::WHITESPACE => {}
+                if offending_symbol.get_token_type() == gen::cellexer::WHITESPACE
+                    && _error.is_none() => {}
             _ => self.parse_errors.borrow_mut().push(ParseError {
                 source: None,
                 pos: (line, column + 1),
